@@ -24,5 +24,8 @@ typedef struct pkcfg {
     void (*del_b)(void *, size_t, uint32_t);
 } pkcfg;
 extern pkcfg PK[];
+/* set wrappers read the element before and after the write inside one function */
+extern volatile uint64_t pk_rmw_before;
+extern uint64_t pk_rmw_after;
 extern int NPK;
 #endif
